@@ -48,6 +48,9 @@ func classify(b []byte) (class string) {
 	return classify0(b)
 }
 
+// CertAccepted: ParseCertificate (strict) accepts the blob without panicking.
+func CertAccepted(blob []byte) bool { return certAccepted(blob) }
+
 func certAccepted(blob []byte) (ok bool) {
 	defer func() {
 		if recover() != nil {
@@ -978,6 +981,59 @@ func gen(g *zv.Gen) {
 					e.add(p, fmt.Sprintf("c01 x %s pkix %s k=rsaints", modeStr(p), zv.Hex(Seq(algRSAEnc, Bits(pk)))))
 				}
 			}
+		}
+	}
+	// SubjectPublicKeyInfo edits for every key family (spki.go): self-issued certificates signed by the family's own
+	// private key (ParseCertificate itself runs the signature verifier of that algorithm with whatever parsePublicKey
+	// made of the edited key), the same certificate issued by another name, and the bare SubjectPublicKeyInfo through
+	// ParsePKIXPublicKey; both modes, x509 and ct/x509.
+	{
+		fams := KeyFamilies()
+		serial := 2000
+		for i := range fams {
+			for _, v := range SPKIVariants(fams[i].SPKI) {
+				serial++
+				self, issued := SPKICert(&fams[i], v.SPKI, true, serial), SPKICert(&fams[i], v.SPKI, false, serial)
+				for _, p := range []bool{false, true} {
+					e.add(p, fmt.Sprintf("c01 x %s cert %s v=%s k=spki-self-%s", modeStr(p), zv.Hex(self), v.Kind, fams[i].Name))
+					e.add(p, fmt.Sprintf("c01 x %s cert %s v=%s k=spki-issued-%s", modeStr(p), zv.Hex(issued), v.Kind, fams[i].Name))
+					e.add(p, fmt.Sprintf("c01 x %s pkix %s v=%s k=spki-%s", modeStr(p), zv.Hex(v.SPKI), v.Kind, fams[i].Name))
+				}
+				e.add(false, fmt.Sprintf("c01 cx s cert %s v=%s k=spki-self-%s", zv.Hex(self), v.Kind, fams[i].Name))
+				e.add(false, fmt.Sprintf("c01 cx s pkix %s v=%s k=spki-%s", zv.Hex(v.SPKI), v.Kind, fams[i].Name))
+			}
+		}
+		// random edits inside the SubjectPublicKeyInfo (first key octets, headers, last octet) of the family certificates
+		// and of the self-issued real certificates of the tree
+		var realSelf [][]byte
+		for _, der := range s.Class["cert"] {
+			if _, _, selfIssued, ok := ReplaceSPKI(der, func(o []byte) []byte { return o }); ok && selfIssued && len(der) < 3000 {
+				realSelf = append(realSelf, der)
+			}
+		}
+		for i := 0; i < g.N(3000, 50000); i++ {
+			p := r.Bool()
+			if i%3 == 2 && len(realSelf) > 0 {
+				kind := ""
+				m, _, _, ok := ReplaceSPKI(realSelf[r.Intn(len(realSelf))], func(o []byte) []byte {
+					var v SPKIVariant
+					if vs := SPKIVariants(o); len(vs) > 0 && r.Bool() {
+						v = vs[r.Intn(len(vs))]
+					} else {
+						v = RandomSPKIEdit(r, o)
+					}
+					kind = v.Kind
+					return v.SPKI
+				})
+				if ok {
+					e.add(p, fmt.Sprintf("c01 x %s cert %s v=%s k=spki-real-self", modeStr(p), zv.Hex(m), kind))
+				}
+				continue
+			}
+			f := &fams[r.Intn(len(fams))]
+			v := RandomSPKIEdit(r, f.SPKI)
+			serial++
+			e.add(p, fmt.Sprintf("c01 x %s cert %s v=%s k=spki-self-%s", modeStr(p), zv.Hex(SPKICert(f, v.SPKI, true, serial)), v.Kind, f.Name))
 		}
 	}
 	// D5-shaped abstract OneCRL records (T2)
